@@ -38,7 +38,13 @@ func zzSameOut(a, b *zzBlockOut, tag string) {
 // zzStakeTx: a staking (delegation or self) or unstaking or transfer tx with symbolic amount.
 func zzSimpleTx(n *zzNode, tag string, nonce uint64) *zzTx {
 	t := &zzTx{gas: n.gov.MinTrxGas(), gasPrice: n.gov.GasPrice(), nonce: nonce}
-	switch zzverif.Choose(tag+".kind", 3) {
+	switch zzverif.Choose(tag+".kind", 4) {
+	case 3: // contract deployment by A3 (the EVM path copies accounts in and out)
+		t.typ = ctrlertypes.TRX_CONTRACT
+		t.from, t.to = 3, -1
+		t.amount = uint256.NewInt(0)
+		t.gas = 1000000
+		t.payload = &ctrlertypes.TrxPayloadContract{Data: zzInitCode(0, nil)}
 	case 0:
 		t.typ = ctrlertypes.TRX_STAKING
 		t.from = 3 // A3: a funded delegator
